@@ -226,6 +226,51 @@ def _mem_pair(backend, rng: random.Random):
     return MemTransport(p1, p2), MemTransport(p2, p1)
 
 
+class _InjectingSSLObject:
+    """the real ssl.SSLObject, except that chosen write() calls first report SSL_ERROR_WANT_WRITE / WANT_READ once
+    (consuming nothing - OpenSSL's contract), as happens when the engine needs transport I/O in the middle of a
+    send (renegotiation / key update).  Everything else is delegated."""
+
+    def __init__(self, real: Any, plan: dict[int, str], kick: "asyncio.Event") -> None:
+        self.__dict__["_real"] = real
+        self.__dict__["_plan"] = dict(plan)
+        self.__dict__["_kick"] = kick
+        self.__dict__["_nwrite"] = 0
+        self.__dict__["injected"] = 0
+
+    def __getattr__(self, name: str) -> Any:
+        return getattr(self._real, name)
+
+    def __setattr__(self, name: str, value: Any) -> None:
+        setattr(self._real, name, value)
+
+    def read(self, *a: Any) -> Any:
+        return self._real.read(*a)
+
+    def write(self, data: Any) -> int:
+        k = self._nwrite
+        self.__dict__["_nwrite"] = k + 1
+        what = self._plan.pop(k, None)
+        if what == "wantw":
+            self.__dict__["injected"] += 1
+            raise ssl.SSLWantWriteError(ssl.SSL_ERROR_WANT_WRITE, "injected")
+        if what == "wantr":
+            self.__dict__["injected"] += 1
+            self._kick.set()          # the peer will send one record, so that the read the transport now needs completes
+            raise ssl.SSLWantReadError(ssl.SSL_ERROR_WANT_READ, "injected")
+        return self._real.write(data)
+
+
+class _InjectingContext:
+    def __init__(self, ctx: ssl.SSLContext, plan: dict[int, str], kick: "asyncio.Event") -> None:
+        self._ctx, self._plan, self._kick = ctx, plan, kick
+        self.obj: _InjectingSSLObject | None = None
+
+    def wrap_bio(self, *a: Any, **kw: Any) -> Any:
+        self.obj = _InjectingSSLObject(self._ctx.wrap_bio(*a, **kw), self._plan, self._kick)
+        return self.obj
+
+
 async def _atls(case: dict) -> list[str]:
     from easynetwork.lowlevel.api_async.backend._asyncio.backend import AsyncIOBackend
     from easynetwork.lowlevel.api_async.transports.tls import AsyncTLSStreamTransport
@@ -236,6 +281,10 @@ async def _atls(case: dict) -> list[str]:
     backend = AsyncIOBackend()
     ta, tb = _mem_pair(backend, rng)
     sctx, cctx = _contexts()
+    kick = asyncio.Event()
+    plan = {int(k): str(v) for k, v in (case.get("inject") or [])}
+    if plan:
+        cctx = _InjectingContext(cctx, plan, kick)  # type: ignore[assignment]
     client, server = await asyncio.gather(
         AsyncTLSStreamTransport.wrap(ta, cctx, server_hostname="localhost", handshake_timeout=WATCHDOG),
         AsyncTLSStreamTransport.wrap(tb, sctx, server_side=True, handshake_timeout=WATCHDOG),
@@ -249,17 +298,36 @@ async def _atls(case: dict) -> list[str]:
                 break
             got.extend(data)
 
+    async def kicker() -> None:
+        while True:
+            await kick.wait()
+            kick.clear()
+            await server.send_all(b"k")
+
     exc: BaseException | None = None
     rd = asyncio.ensure_future(reader())
+    kk = asyncio.ensure_future(kicker()) if plan else None
     try:
         if case["entry"] == "all":
             await client.send_all(b"".join(chunks))
         else:
             await client.send_all_from_iterable(iter(chunks))
-        await rd
+        # the send returned: everything is in the in-memory pipe, the reader needs loop turns only, no time.
+        # (load-independent criterion: bytes that have not arrived after this many turns were never sent)
+        for _ in range(20000):
+            if rd.done():
+                break
+            await asyncio.sleep(0)
+        if rd.done():
+            await rd
+        else:
+            rd.cancel()
     except BaseException as e:  # noqa: BLE001
         exc = e
         rd.cancel()
+    finally:
+        if kk is not None:
+            kk.cancel()
     return [_digest_line(bytes(got)), _outcome(exc)]
 
 
@@ -360,7 +428,20 @@ def oracle(case: dict, real: list[str]) -> str | None:
     return None
 
 
+def _fixed_inject_cases():
+    """critical cases: SSLObject.write() reports WANT_WRITE / WANT_READ in the middle of a multi-chunk send and the
+    method is retried with the same backlog: the chunk whose write was refused must be offered again, once"""
+    base = {"kind": "atls", "kinds": ["b"] * 4, "entry": "iterable", "timeout": None, "sendmsg": True}
+    ch = ["6161616161", "-", "6262626262", "63636363"]
+    for k in range(5):
+        for what in ("wantw", "wantr"):
+            yield {**base, "chunks": ch, "seed": 1000 + k, "inject": [[k, what]]}
+    yield {**base, "chunks": ch, "seed": 7, "inject": [[0, "wantw"], [1, "wantr"], [3, "wantw"]]}
+    yield {**base, "chunks": ["616263"], "kinds": ["b"], "entry": "all", "seed": 8, "inject": [[0, "wantr"]]}
+
+
 def generate(rng, tier: str, boost: int):
+    yield from _fixed_inject_cases()
     n = (60 if tier == "quick" else 600) * min(boost, 2)
     for i in range(n):
         kind = ["realsock", "openssl", "atls", "aio"][i % 4]
@@ -378,4 +459,7 @@ def generate(rng, tier: str, boost: int):
         case = {"kind": kind, "chunks": chunks, "kinds": ["b"] * len(chunks), "seed": rng.randrange(1 << 30),
                 "entry": rng.choice(["packet", "iterable"]) if kind in ("realsock", "openssl") else rng.choice(["iterable", "iterable", "all"]),
                 "timeout": rng.choice([None, WATCHDOG]), "sendmsg": rng.random() < 0.7}
+        if kind == "atls" and chunks and rng.random() < 0.6:
+            idx = sorted(rng.sample(range(len(chunks) + 1), k=min(len(chunks) + 1, rng.randint(1, 2))))
+            case["inject"] = [[k, rng.choice(["wantw", "wantr"])] for k in idx]
         yield case
